@@ -354,3 +354,159 @@ func H_C01_deep_bytes() {
 	vAssert(got == want, "C01 "+vSizeRules[rule]+"/string of arbitrary bytes (long): violated iff the rune count is outside the set")
 	vReach("end")
 }
+
+// ---- round 4 ----
+
+// rule texts written out literally (bounds are not opaque decimal atoms here, so whatever the bound parser
+// does with the characters of the text -- signs, separators, blanks -- is executed byte by byte): every pair of
+// bounds from a catalogue with negative, zero, equal and inverted pairs x a fully symbolic value per kind
+var vC01BoundCat = [][2]int{{-5, 5}, {-10, -2}, {-1, -5}, {0, 0}, {3, -3}, {-128, 127}, {1, 1}, {-9223372036854775808, 9223372036854775807}, {7, 100}, {-1, 0}}
+var vC01BoundTxt = [][2]string{{"-5", "5"}, {"-10", "-2"}, {"-1", "-5"}, {"0", "0"}, {"3", "-3"}, {"-128", "127"}, {"1", "1"}, {"-9223372036854775808", "9223372036854775807"}, {"7", "100"}, {"-1", "0"}}
+
+func vC01LiteralRule(rule, i int, m vMeas) (string, bool) {
+	lo, hi := vC01BoundCat[i][0], vC01BoundCat[i][1]
+	ls, hs := vC01BoundTxt[i][0], vC01BoundTxt[i][1]
+	_, want := vC01RuleWith(rule, lo, hi, m)
+	switch rule {
+	case 0:
+		return "to=" + ls + "~" + hs, want
+	case 1:
+		return "ge=" + ls, want
+	case 2:
+		return "le=" + hs, want
+	case 3:
+		return "oto=" + ls + "~" + hs, want
+	case 4:
+		return "gt=" + ls, want
+	case 5:
+		return "lt=" + hs, want
+	case 6:
+		return "eq=" + ls, want
+	}
+	return "noeq=" + ls, want
+}
+
+func vC01Literal(kind int) {
+	rule := vndChoice("rule", 8)
+	i := vndChoice("bounds", len(vC01BoundCat))
+	x, m, isFloat := vC01Value(kind, 3)
+	if isFloat && i == 7 {
+		return // float bounds beyond 2^53 are outside the claim
+	}
+	text, want := vC01LiteralRule(rule, i, m)
+	tag := "C01 " + text + " on " + vKindNames[kind]
+	got := vViolated(func(b *strings.Builder) { vSizeFns[rule](b, text, "O", "F", reflect.ValueOf(x)) })
+	vAssert(got == want, tag+" (literal rule text): violated iff measure outside the set")
+	vAssert((Var(x, text) != nil) == want, tag+" (literal rule text): Var verdict")
+	vReach("end")
+}
+
+func H_C01_literal_int8()    { vC01Literal(vKInt8) }
+func H_C01_literal_int64()   { vC01Literal(vKInt64) }
+func H_C01_literal_uint16()  { vC01Literal(vKUint16) }
+func H_C01_literal_uint64()  { vC01Literal(vKUint64) }
+func H_C01_literal_float64() { vC01Literal(vKFloat64) }
+func H_C01_literal_string()  { vC01Literal(vKString) }
+func H_C01_literal_slice()   { vC01Literal(vKSlice) }
+
+// floating-point values written out (so that a detour of the value through its decimal text is executed on
+// real digits) x fully symbolic bounds: float32 values at and above 2^24, where the shortest decimal text of a
+// float32 is no longer its exact value, fractions without a finite binary expansion, extremes, denormals
+var vC01F32 = []float32{100000008, 1073741824, 16777216, 16777218, 3.3, 0.1, 1e10, 8388609, -100000008, 3.4028234663852886e38, 1e-45, -2147483648, 2147483648, 4294967296, 0.5, -0.75, 9007199254740992}
+var vC01F64 = []float64{3.3, 0.1, 1e15 + 0.5, 9007199254740992, 9007199254740991, -9007199254740991, 4503599627370496.5, 1e-320, 2.5, -2.5, 1e300, -1e300, 123456789.125, 0.30000000000000004}
+
+func vC01FloatCat(is32 bool, i int) {
+	rule := vndChoice("rule", 8)
+	var x interface{}
+	var f float64
+	if is32 {
+		v := vC01F32[i]
+		x, f = v, float64(v)
+	} else {
+		v := vC01F64[i]
+		x, f = v, v
+	}
+	// bounds: every integer within 3 of the value (clamped to the claimed range of float bounds), both symbolic
+	c := 0
+	switch {
+	case f >= 1<<53-4:
+		c = 1<<53 - 4
+	case f <= -(1<<53 - 4):
+		c = -(1<<53 - 4)
+	default:
+		c = int(f)
+	}
+	lo, hi := vndInt("lo"), vndInt("hi")
+	vAssume(vAnd(lo >= c-3, lo <= c+3))
+	vAssume(vAnd(hi >= c-3, hi <= c+3))
+	text, want := vC01RuleWith(rule, lo, hi, vFloatMeas(f))
+	tag := "C01 " + vSizeRules[rule] + " on a written-out float"
+	got := vViolated(func(b *strings.Builder) { vSizeFns[rule](b, text, "O", "F", reflect.ValueOf(x)) })
+	vAssert(got == want, tag+": violated iff the numeric value is outside the set")
+	vReach("end")
+}
+
+func H_C01_float32_cat_00() { vC01FloatCat(true, 0) }
+func H_C01_float32_cat_01() { vC01FloatCat(true, 1) }
+func H_C01_float32_cat_02() { vC01FloatCat(true, 2) }
+func H_C01_float32_cat_03() { vC01FloatCat(true, 3) }
+func H_C01_float32_cat_04() { vC01FloatCat(true, 4) }
+func H_C01_float32_cat_05() { vC01FloatCat(true, 5) }
+func H_C01_float32_cat_06() { vC01FloatCat(true, 6) }
+func H_C01_float32_cat_07() { vC01FloatCat(true, 7) }
+func H_C01_float32_cat_08() { vC01FloatCat(true, 8) }
+func H_C01_float32_cat_09() { vC01FloatCat(true, 9) }
+func H_C01_float32_cat_10() { vC01FloatCat(true, 10) }
+func H_C01_float32_cat_11() { vC01FloatCat(true, 11) }
+func H_C01_float32_cat_12() { vC01FloatCat(true, 12) }
+func H_C01_float32_cat_13() { vC01FloatCat(true, 13) }
+func H_C01_float32_cat_14() { vC01FloatCat(true, 14) }
+func H_C01_float32_cat_15() { vC01FloatCat(true, 15) }
+func H_C01_float32_cat_16() { vC01FloatCat(true, 16) }
+func H_C01_float64_cat_00() { vC01FloatCat(false, 0) }
+func H_C01_float64_cat_01() { vC01FloatCat(false, 1) }
+func H_C01_float64_cat_02() { vC01FloatCat(false, 2) }
+func H_C01_float64_cat_03() { vC01FloatCat(false, 3) }
+func H_C01_float64_cat_04() { vC01FloatCat(false, 4) }
+func H_C01_float64_cat_05() { vC01FloatCat(false, 5) }
+func H_C01_float64_cat_06() { vC01FloatCat(false, 6) }
+func H_C01_float64_cat_07() { vC01FloatCat(false, 7) }
+func H_C01_float64_cat_08() { vC01FloatCat(false, 8) }
+func H_C01_float64_cat_09() { vC01FloatCat(false, 9) }
+func H_C01_float64_cat_10() { vC01FloatCat(false, 10) }
+func H_C01_float64_cat_11() { vC01FloatCat(false, 11) }
+func H_C01_float64_cat_12() { vC01FloatCat(false, 12) }
+func H_C01_float64_cat_13() { vC01FloatCat(false, 13) }
+
+// the rule stated in the tag decides a plain call, whatever rule an earlier call supplied for the same field of
+// the same type (and the other way round): three calls on one type, verdict of each against its own stated set
+type vC01Tagged struct {
+	F int    `valid:"to=1~5"`
+	G string `valid:"le=2"`
+}
+
+func H_C01_struct_tag_after_override() {
+	lo, hi := vndInt("lo"), vndInt("hi")
+	f1, f2, f3 := vndInt("f1"), vndInt("f2"), vndInt("f3")
+	vAssume(vAnd(f1 != 0, vAnd(f2 != 0, f3 != 0)))
+	_, wantTag2 := vC01RuleWith(0, 1, 5, vSignedMeas(int64(f2)))
+	text, wantOv1 := vC01RuleWith(0, lo, hi, vSignedMeas(int64(f1)))
+	_, wantOv3 := vC01RuleWith(0, lo, hi, vSignedMeas(int64(f3)))
+	order := vndChoice("order", 2)
+	if order == 0 {
+		e1 := Struct(&vC01Tagged{F: f1}, NewRule().Set("F", text))
+		e2 := Struct(&vC01Tagged{F: f2})
+		e3 := Struct(&vC01Tagged{F: f3}, NewRule().Set("F", text))
+		vAssert((e1 != nil) == wantOv1, "C01 sequence: call 1 is judged by the rule supplied to it")
+		vAssert((e2 != nil) == wantTag2, "C01 sequence: a plain call after a call with a supplied rule is judged by the tag's bounds")
+		vAssert((e3 != nil) == wantOv3, "C01 sequence: call 3 is judged by the rule supplied to it")
+	} else {
+		e2 := ValidateStruct(&vC01Tagged{F: f2})
+		e1 := ValidStructForRule(NewRule().Set("F", text), &vC01Tagged{F: f1})
+		e2b := ValidateStruct(&vC01Tagged{F: f2})
+		vAssert((e2 != nil) == wantTag2, "C01 sequence: plain call judged by the tag's bounds")
+		vAssert((e1 != nil) == wantOv1, "C01 sequence: supplied rule judged by its own bounds")
+		vAssert((e2b != nil) == wantTag2, "C01 sequence: plain call judged by the tag's bounds again")
+	}
+	vReach("end")
+}
